@@ -104,7 +104,7 @@ def run(ctx):
                 sigs[kb] = sig_hash(r)
                 ctx.count((s, kb))
                 hist[str(kb)] = hist.get(str(kb), 0) + 1
-                if not r["ok"] and r["err"][0] in ("RawDuckDB", "RawPython") and "memory" in r["msg"].lower():
+                if not r["ok"] and "memory" in r["msg"].lower():
                     sigs.pop(kb)  # the run did not complete (out of memory under the 64MB limit): outside the property
             # repeated run under the first knob
             r2 = with_knobs(knobs[0], tmp, lambda: engine.run_case(s, used, udps))
